@@ -610,3 +610,16 @@ func failCall(t *vlib.T, what, msg string) {
 	}
 	t.FailClass("unexpected-panic", "%s panicked: %s %s", what, msg, lastStack)
 }
+
+// kase registers a case and, for the evidence, counts failed cases in which no
+// finding class was recorded (on the unchanged tree every failure must be
+// attributed to a finding described in NOTES.md: the counter must stay 0).
+func kase(g *vlib.G, key string, run func(t *vlib.T)) {
+	g.Case(key, func(t *vlib.T) {
+		before := nFindings
+		run(t)
+		if t.Failed() && nFindings == before {
+			t.Count("failed_cases_without_finding", 1)
+		}
+	})
+}
